@@ -684,3 +684,10 @@ Example ex_per_run_channel_same_trace : exists s s',
   lstep (code_lcfg (mkd false 1)) s (StaleTake 2 1 0) = None /\
   lstep (code_lcfg (mkd false 1)) s (ExecStart 2 (Some 0)) = Some s' /\ cur_done s' = Some false.
 Proof. eexists. eexists. split; [vm_compute; reflexivity|]. split; [reflexivity|]. split; [vm_compute; reflexivity|]. reflexivity. Qed.
+
+(* Wait (fix f3bea02): a select on the caller's context and on the counter's idle channel, with no helper
+   goroutine -- so a Wait that timed out leaves no goroutine of the scheduler behind, and nothing can be
+   woken by the counter reaching zero while the next Start increments it (the old shape, a goroutine parked
+   in sync.WaitGroup.Wait, could panic the process: "WaitGroup is reused before previous Wait has returned") *)
+Lemma wait_shape : wait_waits_wg = true /\ wait_selects_ctx = true /\ wait_leaves_no_goroutine = true.
+Proof. repeat split; reflexivity. Qed.
